@@ -188,17 +188,20 @@ pub fn dec_plan(prop: &str, tier: Tier) -> Vec<DecPlanItem> {
         }
         "C06" => {
             for &e in &encs {
-                for s in ALL_SINKS {
-                    for repl in [false, true] {
-                        if q && (s == Sink::Str || s == Sink::String) && !repl {
-                            continue;
-                        }
-                        v.push(item(e, s, repl, BomMode::Off, 2, if q { &[16, 33] } else { runs_t }));
-                    }
-                }
+                // slices: both modes, runs that straddle one and two strides; String/str: one mode each
+                v.push(item(e, Sink::Utf8, false, BomMode::Off, 2, if q { &[16, 33] } else { runs_t }));
+                v.push(item(e, Sink::Utf16, true, BomMode::Off, 2, if q { &[17] } else { runs_t }));
+                v.push(item(e, Sink::Str, true, BomMode::Off, if q { 1 } else { 2 }, &[16]));
+                v.push(item(e, Sink::String, false, BomMode::Off, if q { 1 } else { 2 }, &[16]));
                 v.push(item(e, Sink::Utf8, true, BomMode::Sniff, 2, &[]));
-                v.push(item(e, Sink::Utf8, false, BomMode::Sniff, 2, &[]));
-                v.push(item(e, Sink::Utf16, false, BomMode::Sniff, 2, &[]));
+                if !q {
+                    v.push(item(e, Sink::Utf8, true, BomMode::Off, 2, runs_t));
+                    v.push(item(e, Sink::Utf16, false, BomMode::Off, 2, runs_t));
+                    v.push(item(e, Sink::Str, false, BomMode::Off, 2, &[16]));
+                    v.push(item(e, Sink::String, true, BomMode::Off, 2, &[16]));
+                    v.push(item(e, Sink::Utf8, false, BomMode::Sniff, 2, &[]));
+                    v.push(item(e, Sink::Utf16, false, BomMode::Sniff, 2, &[]));
+                }
             }
         }
         "C07" => {
